@@ -337,6 +337,10 @@ class Parameterizer:
         if isinstance(value, Enum):
             return False
 
+        if isinstance(value, Node):
+            # a wrapped term (e.g. do_update("col", <term>)) renders itself; it is not a bind value
+            return False
+
         if isinstance(value, str) and value == "*":
             return False
         return True
